@@ -148,6 +148,9 @@ def _const_truth(e: ast.expr) -> Optional[bool]:
     """Truth of a condition that is decided by constants alone (`1 == 1`)."""
     if isinstance(e, ast.Constant):
         return bool(e.value)
+    if isinstance(e, ast.UnaryOp) and isinstance(e.op, ast.Not):
+        t = _const_truth(e.operand)
+        return None if t is None else not t
     if isinstance(e, ast.Compare) and len(e.ops) == 1 and isinstance(e.ops[0], (ast.Is, ast.IsNot)) and isinstance(e.comparators[0], ast.Constant) \
             and e.comparators[0].value is None and isinstance(e.left, (ast.Lambda, ast.Constant, ast.Dict, ast.List, ast.Tuple, ast.Set, ast.JoinedStr)):
         is_none = isinstance(e.left, ast.Constant) and e.left.value is None
@@ -188,6 +191,73 @@ def _mutated_bases(st: ast.stmt) -> set:
                     if isinstance(b, ast.Name):
                         out.add(b.id)
     return out
+
+
+def _own_breaks(loop) -> List[ast.Break]:
+    """The `break` statements that leave ``loop`` itself (not those of loops nested in it)."""
+    out = []
+
+    def walk(stmts):
+        for s_ in stmts:
+            if isinstance(s_, ast.Break):
+                out.append(s_)
+            elif isinstance(s_, (ast.For, ast.AsyncFor, ast.While)):
+                walk(s_.orelse)
+            elif isinstance(s_, (ast.FunctionDef, ast.AsyncFunctionDef, ast.ClassDef)):
+                continue
+            else:
+                for f_ in ("body", "orelse", "finalbody"):
+                    walk(getattr(s_, f_, []) or [])
+                for h in getattr(s_, "handlers", []) or []:
+                    walk(h.body)
+    walk(loop.body)
+    return out
+
+
+def _break_flags(loop) -> Dict[str, List[ast.expr]]:
+    """Locals that are assigned inside ``loop`` ONLY in a block that ends with a `break` of this loop (and not in its else
+    clause): name -> the values assigned."""
+    inside: Dict[str, List[Tuple[ast.expr, bool]]] = {}
+
+    def walk(stmts, in_nested_loop):
+        ends_with_break = bool(stmts) and isinstance(stmts[-1], ast.Break) and not in_nested_loop
+        for s_ in stmts:
+            if isinstance(s_, (ast.Assign, ast.AnnAssign)) and getattr(s_, "value", None) is not None:
+                tg = s_.targets if isinstance(s_, ast.Assign) else [s_.target]
+                for t_ in tg:
+                    for nm in ast.walk(t_):
+                        if isinstance(nm, ast.Name) and isinstance(nm.ctx, ast.Store):
+                            inside.setdefault(nm.id, []).append((s_.value, ends_with_break and isinstance(t_, ast.Name)))
+            elif isinstance(s_, (ast.AugAssign, ast.Delete)):
+                for nm in ast.walk(s_):
+                    if isinstance(nm, ast.Name) and isinstance(nm.ctx, (ast.Store, ast.Del)):
+                        inside.setdefault(nm.id, []).append((ast.Constant(value=None), False))
+            if isinstance(s_, (ast.For, ast.AsyncFor, ast.While)):
+                for nm in ast.walk(getattr(s_, "target", ast.Constant(value=None))):
+                    if isinstance(nm, ast.Name):
+                        inside.setdefault(nm.id, []).append((ast.Constant(value=None), False))
+                walk(s_.body, True)
+                walk(s_.orelse, in_nested_loop)
+            elif isinstance(s_, (ast.FunctionDef, ast.AsyncFunctionDef, ast.ClassDef)):
+                continue
+            else:
+                for f_ in ("body", "orelse", "finalbody"):
+                    b_ = getattr(s_, f_, None)
+                    if isinstance(b_, list) and b_ and isinstance(b_[0], ast.stmt):
+                        walk(b_, in_nested_loop)
+                for h in getattr(s_, "handlers", []) or []:
+                    walk(h.body, in_nested_loop)
+                for it in getattr(s_, "items", []) or []:
+                    if getattr(it, "optional_vars", None) is not None:
+                        for nm in ast.walk(it.optional_vars):
+                            if isinstance(nm, ast.Name):
+                                inside.setdefault(nm.id, []).append((ast.Constant(value=None), False))
+    walk(loop.body, False)
+    for nm in ast.walk(getattr(loop, "target", ast.Constant(value=None))):
+        if isinstance(nm, ast.Name):
+            inside.setdefault(nm.id, []).append((ast.Constant(value=None), False))
+    else_assigned = _assigned(loop.orelse)
+    return {n: [v for v, _ in vs] for n, vs in inside.items() if all(ok for _, ok in vs) and n not in else_assigned}
 
 
 MUTATORS = {"append", "add", "update", "extend", "insert", "pop", "remove", "clear", "setdefault", "discard", "sort", "reverse",
@@ -312,7 +382,35 @@ class _Walker:
                 eff = copy.copy(st)
                 eff._sym_head = head  # type: ignore[attr-defined]
                 effects.append(eff)
-                continue
+                breaks = _own_breaks(st)
+                if not breaks and not st.orelse:
+                    continue
+                cont_after = after
+                if not breaks:
+                    # a loop that cannot be left early always runs its else clause
+                    self.block(list(st.orelse) + rest, env, conds, loops, effects, final=final, after=cont_after)
+                    return
+                # the loop either runs to completion (then its else clause runs) or is left by `break`.  A local that is assigned
+                # inside the loop only on the way to a `break` (a "found"/"ok" flag) still has its pre-loop value on completion and
+                # the assigned constant after a break: both spellings — flag and for…else — give the same two continuations
+                self._n_break_loops = getattr(self, "_n_break_loops", 0) + 1
+                atom = ast.Name(id="loop_completed" if self._n_break_loops == 1 else f"loop_completed_{self._n_break_loops}", ctx=ast.Load())
+                flags = _break_flags(st)
+                env_c, env_b = dict(env), dict(env)
+                body_assigned = _assigned(st.body)
+                for nme in _assigned(st.orelse) - body_assigned:   # bound only by the else clause: untouched until it runs (if it runs)
+                    if nme in marker._sym_env:
+                        env_c[nme] = marker._sym_env[nme]
+                        env_b[nme] = marker._sym_env[nme]
+                for nme, consts in flags.items():
+                    if nme in marker._sym_env:
+                        env_c[nme] = marker._sym_env[nme]
+                    texts = {norm(c) for c in consts}
+                    if len(texts) == 1 and all(isinstance(c, ast.Constant) for c in consts):
+                        env_b[nme] = consts[0]
+                self.block(list(st.orelse) + rest, env_c, conds + [(atom, True)], loops, effects, final=final, after=cont_after)
+                self.block(list(rest), env_b, conds + [(atom, False)], loops, effects, final=final, after=cont_after)
+                return
             if isinstance(st, (ast.With, ast.AsyncWith)):
                 for it in st.items:
                     if it.optional_vars is not None:
